@@ -145,7 +145,15 @@ fn check_year(ctx: &Ctx, t: &LunTable, y: isize, loc: &mut Local) {
         }
       }
     }
-    Err(e) => ctx.violation("year_months", key, format!("panics: {}", e), rp),
+    Err(e) => ctx.violation("year_months", key.clone(), format!("panics: {}", e), rp.clone()),
+  }
+  // a year has no other months than the listed ones: leap month -m is constructible iff m is the year's leap month
+  for m in 1..=12isize {
+    loc.transitions += 1;
+    let got = guard(|| LunarMonth::new(y, -m).is_ok()).unwrap_or(false);
+    if got != (m as usize == leap) {
+      ctx.violation("year_months", format!("{}-{:02}L", key, m), format!("LunarMonth::new({}, {}) accepted={} but the year's leap month is {} (a second label for a lunation the year already lists)", y, -m, got, leap), rp.clone());
+    }
   }
 }
 
